@@ -619,6 +619,10 @@ func zzH01_vm_stack() {
 	switch name {
 	case "LTLT", "GTGT":
 		zzAssume(zzAnd(bv >= 0, bv < 8))
+	case "SLASH":
+		// float division of symbolic operands is out of the solver's reach; the point here is
+		// operand order and stack depth, for which concrete operands suffice
+		av, bv = 7, 2
 	}
 	e := &zzVMEnv{a: MakeInt64(av), b: MakeInt64(bv), av: av, bv: bv}
 	e.list = NewList([]Value{MakeInt(10), MakeInt(11), MakeInt(12)})
